@@ -224,13 +224,84 @@ Definition misdelivered (acts : list act) (spec obs : list res) : bool :=
   let conns := acc_pairs obs in
   misdelivered_bytes acts spec obs 0 conns || misdelivered_eof conns [] acts spec obs.
 
+(* ---- relayed datagrams (ReadWriteUDP), judged on the observation.  Every relayed
+   datagram is its own flow: the bytes a service writes on the pseudo-connection it was
+   handed for datagram i return to the agent tagged with the (local, remote) pair of
+   datagram i - whatever arrived in between, however late the answer is.
+   - the datagrams are the ReadWriteUDP messages the agent SENT (both addresses UDP), in
+     order; the i-th pseudo-connection the services were handed belongs to the i-th;
+   - mistagged: a frame returned to the agent carries the payload of an answer and the
+     pair of a datagram of this session, but no answer with that payload was written on a
+     datagram with that pair (answers are tagged with the datagram they answer);
+   - surfaced: the pseudo-connection handed to the services for a datagram shows other
+     addresses or another payload than the agent sent;
+   - lost / duplicated: the number of ReadWriteUDP frames the agent received is not the
+     number of answers the services wrote successfully. *)
+Definition SIG_UDP_MISTAGGED := 14%N.
+Definition SIG_UDP_SURFACED := 15%N.
+Definition SIG_UDP_LOST_DUP := 16%N.
+
+Definition sent_dgrams (acts : list act) : list (addr * addr * bytes) :=
+  flat_map (fun m => match m with
+                     | MUdp l r p => if is_udp l && is_udp r then [(l, r, p)] else []
+                     | _ => []
+                     end) (flat_map act_msgs acts).
+
+Definition answers_of (acts : list act) : list (nat * bytes) :=
+  flat_map (fun a => match a with AUdpR i p _ => [(i, p)] | _ => [] end) acts.
+
+Definition pair_eqb (a b : addr * addr) : bool := addr_eqb (fst a) (fst b) && addr_eqb (snd a) (snd b).
+
+(* an answer with payload p was written on a datagram whose pair is pr *)
+Definition answered_on (ds : list (addr * addr * bytes)) (reps : list (nat * bytes)) (p : bytes) (pr : addr * addr) : bool :=
+  existsb (fun x => eqb_bytes (snd x) p &&
+                    match nth_error ds (fst x) with
+                    | Some d => pair_eqb (fst d) pr
+                    | None => false
+                    end) reps.
+
+Definition mistagged_frame (ds : list (addr * addr * bytes)) (reps : list (nat * bytes)) (f : msg) : bool :=
+  match f with
+  | MUdp l r p =>
+    (4 <=? zlen p) && existsb (fun x => eqb_bytes (snd x) p) reps
+    && existsb (fun d => pair_eqb (fst d) (l, r)) ds
+    && negb (answered_on ds reps p (l, r))
+  | _ => false
+  end.
+
+Definition udp_mistagged (acts : list act) (frames : list msg) : bool :=
+  existsb (mistagged_frame (sent_dgrams acts) (answers_of acts)) frames.
+
+Fixpoint udp_surfaced_wrong (acts : list act) (obs : list res) : bool :=
+  match acts, obs with
+  | a :: acts', y :: obs' =>
+    (match a, y with
+     | ASend (MUdp l r p), RUdpAcc l' r' p' => negb (addr_eqb l l' && addr_eqb r r' && eqb_bytes p p')
+     | _, _ => false
+     end) || udp_surfaced_wrong acts' obs'
+  | _, _ => false
+  end.
+
+Fixpoint answers_written (acts : list act) (obs : list res) : nat :=
+  match acts, obs with
+  | AUdpR _ _ _ :: acts', RNone :: obs' => S (answers_written acts' obs')
+  | _ :: acts', _ :: obs' => answers_written acts' obs'
+  | _, _ => O
+  end.
+
+Definition udp_lost_or_dup (acts : list act) (obs : list res) (frames : list msg) : bool :=
+  negb (Nat.eqb (length (filter is_udp_msg frames)) (answers_written acts obs)).
+
 Definition scase_sig (c : scase) : N :=
   let '(_, rs, fs) := run ideal_wire sess0 (sc_acts c) in
   if list_eqb res_eqb rs (sc_res c) && list_eqb msg_eqb fs (sc_frames c) then 0%N
+  else if udp_mistagged (sc_acts c) (sc_frames c) then SIG_UDP_MISTAGGED
+  else if udp_surfaced_wrong (sc_acts c) (sc_res c) then SIG_UDP_SURFACED
   else if existsb big_frame (flat_map act_msgs (sc_acts c) ++ fs)
           && ((first_diff rs (sc_res c) =? 0) || (first_diff rs (sc_res c) =? SIG_STREAM))%N
        then SIG_LARGE_FRAME  (* stream/frame deviation in a run carrying a frame above 4096 bytes *)
   else if misdelivered (sc_acts c) rs (sc_res c) then SIG_MISDELIVERED
+  else if udp_lost_or_dup (sc_acts c) (sc_res c) (sc_frames c) then SIG_UDP_LOST_DUP
   else match first_diff rs (sc_res c) with
        | 0%N => SIG_FRAMES
        | s => s
